@@ -99,8 +99,9 @@ class _Canon(ast.NodeTransformer):
 
     def visit_Call(self, node: ast.Call):
         self.generic_visit(node)
-        if isinstance(node.func, ast.Attribute) and node.func.attr == 'get' and len(node.args) == 2 \
-                and not node.keywords and _is_empty_literal(node.args[1]):
+        if isinstance(node.func, ast.Attribute) and node.func.attr == 'get' and not node.keywords \
+                and ((len(node.args) == 2 and _is_empty_literal(node.args[1])) or len(node.args) == 1):
+            # (inside len()/truthiness a missing key (None / empty default) behaves like an empty entry)
             return ast.Subscript(value=node.func.value, slice=node.args[0], ctx=ast.Load())
         return node
 
@@ -242,8 +243,8 @@ class FormulaBuilder:
             if d in ('any', 'all'):
                 return opaque('call', canon(e))
             # d.get(k, <empty>) in a boolean position is the truthiness of d[k]
-            if isinstance(e.func, ast.Attribute) and e.func.attr == 'get' and len(e.args) == 2 and not e.keywords \
-                    and _is_empty_literal(e.args[1]):
+            if isinstance(e.func, ast.Attribute) and e.func.attr == 'get' and not e.keywords \
+                    and ((len(e.args) == 2 and _is_empty_literal(e.args[1])) or len(e.args) == 1):
                 return truthy_atom(e)
             if self.inline is not None and _depth < self.inline_bound:
                 rep = self.inline(e)
@@ -274,7 +275,12 @@ class FormulaBuilder:
             elif isinstance(a, ast.Constant) and a.value is None:
                 none_side, other = a, b
             if none_side is not None:
-                f = opaque('isnone', canon(other))
+                if isinstance(other, ast.Call) and isinstance(other.func, ast.Attribute) \
+                        and other.func.attr in ('fullmatch', 'match', 'search'):
+                    # a regex match object is truthy exactly when it is not None
+                    f = f_not(opaque('call', canon(other)))
+                else:
+                    f = opaque('isnone', canon(other))
             else:
                 ks = sorted([canon(a), canon(b)])
                 f = opaque('is', *ks)
